@@ -1,18 +1,20 @@
-import VlsModel.Model.Bolt3
+import VlsModel.Model.Bolt3Bytes
 import VlsModel.Drv.Common
 /-
 Line-protocol driver for the structured BOLT-3 model (property C04).
 
-Instantiation: P2WSH programs are the scripts themselves (`wsh := id`), the byte order of
-script_pubkeys is supplied by the harness as a rank per candidate output (it is the order of SHA-256
-values, which the structured model does not compute).  Keys are fixed small ids:
+Instantiation of the structured lines: P2WSH programs are the scripts themselves (`wsh := id`); the
+order key of every candidate script_pubkey is computed here from its real bytes (SHA-256 of the
+script bytes, `okeyB`).  The serialised line uses the byte-level instance (`H := Nat`, `wshB`, `okeyB`,
+`ser` of `Model/Bolt3Bytes.lean`).  Keys are fixed small ids:
 1 revocation, 2 broadcaster delayed, 3 broadcaster htlc, 4 countersignatory htlc,
 5 countersignatory payment point, 6 broadcaster funding, 7 countersignatory funding; 0 = malformed.
 
 ops
   setup <l|s|a|z> <outbound> <holderDelay> <cpDelay> <txid> <vout> <channelValue> <obscure> <strict>
-  content <commitNum> <feerate> <toCs> <toBc> <rkRemote> <rkLocal> <rkAnchorB> <rkAnchorC> {o|r}:<value>:<hash>:<cltv>:<rank>…
-        → canonical transaction rendering (or `panic`)
+  keys <k1> … <k7> <hash160 k1> <hash160 k5>          (hex; the 33-byte keys of ids 1..7)
+  content <commitNum> <feerate> <toCs> <toBc> {o|r}:<value>:<hash>:<cltv>:<ripemd160 hex>…
+        → canonical transaction rendering | HTLC-tx fields | hex of `ser (canon c)` (or `panic`)
   p2 <ok|err|panic>                       → accept / reject of phase 2 on the current content
   p1 <ok|err|panic> <mutation…>           → accept <csVal> <bcVal> / reject of phase 1 on the mutated canonical tx
 -/
@@ -23,6 +25,12 @@ abbrev H := Script
 
 structure St where
   strict : Bool
+  /-- key bytes of ids 1..7 (index 0 unused), HASH160 of key 1 (revocation) and key 5 (payment point) -/
+  keyTab : List (List UInt8)
+  h160rev : Nat
+  h160pay : Nat
+  /-- payment hash id ↦ RIPEMD160 (big-endian number) -/
+  payTab : List (Nat × Nat)
   setup : Setup
   content : Content
   ranks : List (Spk H × Nat)
@@ -32,7 +40,29 @@ def keys : Keys := ⟨1, 2, 3, 4, 5, 6, 7⟩
 def okeyOf (ranks : List (Spk H × Nat)) (p : Spk H) : Nat := (ranks.lookup p).getD 0
 
 def initSetup : Setup := ⟨.staticRemoteKey, true, 6, 7, 2, 0, 3000000, 0⟩
-def init : St := ⟨true, initSetup, ⟨1, 0, 0, 0, [], []⟩, []⟩
+def init : St := ⟨true, [], 0, 0, [], initSetup, ⟨1, 0, 0, 0, [], []⟩, []⟩
+
+def St.env (st : St) : BEnv :=
+  { nKeys := 8
+    keyBytes := fun k => (st.keyTab[k]?).getD []
+    keyHash160 := fun k => if k == 1 then st.h160rev else if k == 5 then st.h160pay else 0
+    payHash160 := fun h => (st.payTab.lookup h).getD 0 }
+
+/-- a script-level script_pubkey as the byte-level one (P2WSH program = SHA-256 of the script bytes) -/
+def spkToNat (env : BEnv) : Spk H → Spk Nat
+  | .p2wpkh k => .p2wpkh k
+  | .p2wsh sc => .p2wsh (wshB env sc)
+  | .other n => .other n
+
+/-- funding txid id `n` ↦ the 32 bytes `n n … n` as a number -/
+def txidNat (n : Nat) : Nat := beNat (List.replicate 32 (UInt8.ofNat n))
+
+/-- the byte-level instance: `H := Nat`, P2WSH by SHA-256, order = byte order; serialised -/
+def serCanon (st : St) : String :=
+  let env := st.env
+  match canon (wshB env) (okeyB env) { st.setup with fundingTxid := txidNat st.setup.fundingTxid } keys st.content with
+  | none => "panic"
+  | some tx => toHex (ser env tx)
 
 def ctype? : String → Option CType
   | "l" => some .legacy | "s" => some .staticRemoteKey | "a" => some .anchors | "z" => some .anchorsZeroFee
@@ -72,14 +102,14 @@ def render (st : St) : String :=
   | some tx =>
     let hts := htlcTxs id (okeyOf st.ranks) st.setup keys st.content tx
     s!"tx {tx.version} {tx.locktime} {" ".intercalate (tx.inputs.map showIn)} | " ++
-    " ".intercalate (tx.outputs.map showOut) ++ " | " ++ " ".intercalate (hts.map showHtlcTx)
+    " ".intercalate (tx.outputs.map showOut) ++ " | " ++ " ".intercalate (hts.map showHtlcTx) ++ " | " ++ serCanon st
 
-/-- `{o|r}:<value>:<hash>:<cltv>:<rank>` -/
+/-- `{o|r}:<value>:<hash>:<cltv>:<ripemd160 of the payment hash, hex>` -/
 def htlcTok? (t : String) : Option (Bool × Htlc × Nat) :=
   match t.splitOn ":" with
   | [d, v, h, c, r] =>
-    match (if d == "o" then some true else if d == "r" then some false else none), nat? v, nat? h, nat? c, nat? r with
-    | some off, some v, some h, some c, some r => some (off, ⟨v, h, c⟩, r)
+    match (if d == "o" then some true else if d == "r" then some false else none), nat? v, nat? h, nat? c, hex? r with
+    | some off, some v, some h, some c, some r => some (off, ⟨v, h, c⟩, beNat r)
     | _, _, _, _, _ => none
   | _ => none
 
@@ -204,20 +234,27 @@ def step (st : St) (toks : List String) : St × String :=
     | some t, some ob, some hd, some cd, some txid, some vout, some cv, some obs, some strict =>
       ({ st with setup := ⟨t, ob, hd, cd, txid, vout, cv, obs⟩, strict := strict }, "ok")
     | _, _, _, _, _, _, _, _, _ => (st, "bad-op")
-  | "content" :: cn :: fr :: toCs :: toBc :: rR :: rL :: rA :: rC :: hts =>
-    match nat? cn, nat? fr, nat? toCs, nat? toBc, nat? rR, nat? rL, nat? rA, nat? rC, hts.mapM htlcTok? with
-    | some cn, some fr, some toCs, some toBc, some rR, some rL, some rA, some rC, some hts =>
+  | "keys" :: k1 :: k2 :: k3 :: k4 :: k5 :: k6 :: k7 :: h1 :: h5 :: [] =>
+    match [k1, k2, k3, k4, k5, k6, k7].mapM hex?, hex? h1, hex? h5 with
+    | some ks, some h1, some h5 => ({ st with keyTab := [] :: ks, h160rev := beNat h1, h160pay := beNat h5 }, "ok")
+    | _, _, _ => (st, "bad-op")
+  | "content" :: cn :: fr :: toCs :: toBc :: hts =>
+    match nat? cn, nat? fr, nat? toCs, nat? toBc, hts.mapM htlcTok? with
+    | some cn, some fr, some toCs, some toBc, some hts =>
       let offered := hts.filterMap fun (o, h, _) => if o then some h else none
       let received := hts.filterMap fun (o, h, _) => if o then none else some h
       let c : Content := ⟨cn, fr, toCs, toBc, offered, received⟩
       let s := st.setup
-      let ranks : List (Spk H × Nat) :=
-        [ ((toRemoteElem id s keys 0).out.spk, rR), ((toLocalElem id s keys 0).out.spk, rL),
-          ((anchorElem id keys.bFunding : Elem H).out.spk, rA), ((anchorElem id keys.cFunding : Elem H).out.spk, rC) ] ++
-        hts.map fun (o, h, r) => ((htlcElem id s keys o h).out.spk, r)
-      let st' := { st with content := c, ranks := ranks }
+      let st1 := { st with content := c, payTab := hts.map fun (p : Bool × Htlc × Nat) => (p.2.1.hash, p.2.2) }
+      let env := st1.env
+      -- order keys of the candidate script_pubkeys, computed here from the real bytes (SHA-256)
+      let cands : List (Spk H) :=
+        [ (toRemoteElem id s keys 0).out.spk, (toLocalElem id s keys 0).out.spk,
+          (anchorElem id keys.bFunding : Elem H).out.spk, (anchorElem id keys.cFunding : Elem H).out.spk ] ++
+        hts.map fun (o, h, _) => (htlcElem id s keys o h).out.spk
+      let st' := { st1 with ranks := cands.map fun p => (p, okeyB env (spkToNat env p)) }
       (st', render st')
-    | _, _, _, _, _, _, _, _, _ => (st, "bad-op")
+    | _, _, _, _, _ => (st, "bad-op")
   | ["p2", pol] =>
     match pol? pol with
     | some pol =>
